@@ -24,7 +24,7 @@ ASSUMPTIONS = [
     "TrafficSignElement.additional_values (documented as list, compared as set) are perturbed in their membership "
     "only, never in order or multiplicity - different under the list and the set reading",
     "elements that the library keys by id are generated with distinct ids (sign elements per sign, incomings per "
-    "intersection, planning problems per set, objects per network/scenario); ids >= 0 (>0 where the library asserts it)",
+    "intersection, planning problems per set, objects per network/scenario); ids >= 0 (> 0 where the library asserts)",
     "Trajectory.initial_time_step is perturbed together with the time steps of its states (the constructor asserts "
     "their agreement); Interval ends keep start <= end; Lanelet polylines keep equal lengths and are moved by "
     "<= 1e-5 relative; polygon vertices likewise (simple polygons stay simple)",
